@@ -1,7 +1,9 @@
 //! C38 — simulator runs replay deterministically.
 use std::collections::BTreeMap;
 
-use vf_explore::{Report, Stats, Value, combi, explore, hash_of, json};
+use vf_explore::{Report, Stats, Value, combi, hash_of, json};
+
+use crate::driver::explore_tolerant;
 
 use crate::corpus::{self, Entry};
 use crate::simrun::{Obs, Run, Verdict};
@@ -80,29 +82,40 @@ fn diff_bytes(a: &BytesRun, b: &BytesRun) -> String {
 fn program_cases(name: &str, bound: usize, max_len: usize, twice: bool, st: &mut Stats) -> BTreeMap<String, u64> {
     let e = corpus::build(name, prog_n(name));
     let mut digests = BTreeMap::new();
-    let es = explore(Some(bound), 200_000, |ch| {
-        let r1 = e.sim.run_driver(ch, true, true);
-        let choices = ch.choices();
+    let mut max_points = 0;
+    let (executions, capped) = explore_tolerant(bound, 200_000, |prefix| {
+        // the explorer itself must survive a non-deterministic subject: here that is the verdict
+        let (r1, div1) = e.sim.run_tolerant(prefix.to_vec(), true);
+        let choices: Vec<usize> = r1.decisions.iter().map(|d| d.1).collect();
+        max_points = max_points.max(choices.len());
         st.eval();
         st.nontrivial(&(name, &choices));
         st.outcome(&(name, &r1.obs, &r1.verdict));
         digests.insert(format!("dev:{choices:?}"), hash_of(&r1));
+        if let Some(d) = div1 {
+            st.violation(
+                format!("C38/{name}/deviation-replay"),
+                format!("program {name} ({}): replaying the recorded decision prefix {prefix:?} met a different decision tree: {d}", e.inputs),
+                json!({"program": name, "choices": prefix}),
+            );
+        }
         if twice {
-            let r2 = e.run_prefix(choices.clone(), true);
-            if r1 != r2 {
+            let (r2, div2) = e.sim.run_tolerant(choices.clone(), true);
+            if r1 != r2 || div2.is_some() {
                 // once more, so that a difference is itself reproducible evidence
-                let r3 = e.run_prefix(choices.clone(), true);
+                let (r3, _) = e.sim.run_tolerant(choices.clone(), true);
                 st.violation(
                     format!("C38/{name}/deviation-replay"),
-                    format!("program {name} ({}), decision vector {choices:?}: {} (third run equals first: {})", e.inputs, diff_runs(&r1, &r2), r3 == r1),
+                    format!("program {name} ({}), decision vector {choices:?}: {} (third run equals first: {})", e.inputs, div2.unwrap_or_else(|| diff_runs(&r1, &r2)), r3 == r1),
                     json!({"program": name, "choices": choices}),
                 );
             }
         }
         st.sample(|| json!({"program": name, "inputs": e.inputs, "decision_vector": choices, "decisions": r1.decisions.len(), "verdict": format!("{:?}", r1.verdict), "outputs": format!("{:?}", r1.obs)}));
+        r1.decisions
     });
-    if es.capped {
-        st.cap(format!("program {name}: deviation explorer stopped after {} executions", es.executions));
+    if capped {
+        st.cap(format!("program {name}: deviation explorer stopped after {executions} executions"));
     }
     let mut nbytes = 0;
     for bytes in combi::sequences_upto(&ALPHABET, max_len) {
@@ -124,7 +137,7 @@ fn program_cases(name: &str, bound: usize, max_len: usize, twice: bool, st: &mut
         }
     }
     if twice {
-        println!("  program {name}: {} decision vectors (bound {bound}, max {} decisions), {nbytes} byte strings, each run twice", es.executions, es.max_points);
+        println!("  program {name}: {executions} decision vectors (bound {bound}, max {max_points} decisions), {nbytes} byte strings, each run twice");
     }
     digests
 }
@@ -135,7 +148,7 @@ fn parse_list(s: &str) -> Vec<u64> {
 
 fn digest_of_case(e: &Entry, case: &str) -> u64 {
     if let Some(v) = case.strip_prefix("dev:") {
-        hash_of(&e.run_prefix(parse_list(v).into_iter().map(|x| x as usize).collect(), true))
+        hash_of(&e.sim.run_tolerant(parse_list(v).into_iter().map(|x| x as usize).collect(), true).0)
     } else if let Some(v) = case.strip_prefix("bytes:") {
         hash_of(&bytes_run(e, &parse_list(v).into_iter().map(|x| x as u8).collect::<Vec<_>>()))
     } else {
@@ -248,8 +261,12 @@ pub fn replay(case: &Value) -> bool {
     let mut bad = false;
     if let Some(ch) = case["choices"].as_array() {
         let choices: Vec<usize> = ch.iter().map(|c| c.as_u64().unwrap() as usize).collect();
-        let r1 = e.run_prefix(choices.clone(), true);
-        let r2 = e.run_prefix(choices.clone(), true);
+        let (r1, d1) = e.sim.run_tolerant(choices.clone(), true);
+        let (r2, d2) = e.sim.run_tolerant(choices.clone(), true);
+        if let Some(d) = d1.or(d2) {
+            println!("replay: VIOLATION the recorded decision vector no longer fits the decision tree: {d}");
+            bad = true;
+        }
         println!("replay: program {name} ({}), decision vector {choices:?}\n  run 1: {r1:?}\n  run 2: {r2:?}", e.inputs);
         if r1 != r2 {
             println!("replay: VIOLATION {}", diff_runs(&r1, &r2));
